@@ -121,6 +121,131 @@ fn main() {
             p08::debug(&case);
             0
         }
+        Some("fuzz-decode") => {
+            // the case a libFuzzer input decodes to (see src/fuzzing.rs)
+            let id = args[2].as_str();
+            let data = std::fs::read(&args[3]).expect("read input");
+            fn dec<P: Prop>(data: &[u8]) -> i32 {
+                match fv::fuzzing::decode_to_value::<P>(data) {
+                    Some(v) => {
+                        println!("{}", serde_json::to_string(&v).unwrap());
+                        0
+                    }
+                    None => {
+                        eprintln!("the generator rejected this input");
+                        3
+                    }
+                }
+            }
+            for_prop!(id, dec, &data)
+        }
+        Some("fuzz-merge") => {
+            // fv fuzz-merge <ID> <workdir> <seconds> <jobs> <status>: fold the
+            // coverage-guided stage's own counters into evidence/<ID>.json
+            let id = args[2].as_str();
+            let work = PathBuf::from(&args[3]);
+            let mut execs = 0u64;
+            let mut rejected = 0u64;
+            let mut fps = std::collections::BTreeSet::<u64>::new();
+            let mut classes = std::collections::BTreeMap::<String, u64>::new();
+            let mut known = std::collections::BTreeMap::<String, u64>::new();
+            let mut samples: Vec<serde_json::Value> = vec![];
+            let mut procs = 0u64;
+            if let Ok(rd) = std::fs::read_dir(&work) {
+                for e in rd.flatten() {
+                    let name = e.file_name().to_string_lossy().to_string();
+                    if !name.starts_with("fuzz_evidence.") {
+                        continue;
+                    }
+                    let Ok(txt) = std::fs::read_to_string(e.path()) else { continue };
+                    let Ok(v) = serde_json::from_str::<serde_json::Value>(&txt) else { continue };
+                    procs += 1;
+                    execs += v["executions_decoded"].as_u64().unwrap_or(0);
+                    rejected += v["inputs_rejected_by_generator"].as_u64().unwrap_or(0);
+                    if let Some(a) = v["nontrivial_fingerprints"].as_array() {
+                        fps.extend(a.iter().filter_map(|x| x.as_u64()));
+                    }
+                    for (key, dst) in [("classes", &mut classes), ("known_finding_hits_excluded", &mut known)] {
+                        if let Some(m) = v[key].as_object() {
+                            for (k, n) in m {
+                                let n = n.as_u64().unwrap_or(0);
+                                let slot = dst.entry(k.clone()).or_insert(0);
+                                if k.starts_with("max_") {
+                                    *slot = (*slot).max(n);
+                                } else {
+                                    *slot += n;
+                                }
+                            }
+                        }
+                    }
+                    if samples.len() < 2 {
+                        if let Some(a) = v["samples"].as_array() {
+                            samples.extend(a.iter().take(1).cloned());
+                        }
+                    }
+                }
+            }
+            // libFuzzer's own final statistics, from the job logs
+            let mut lf_execs = 0u64;
+            let mut lf_new = 0u64;
+            let mut max_cov = 0u64;
+            let mut max_ft = 0u64;
+            if let Ok(rd) = std::fs::read_dir(&work) {
+                for e in rd.flatten() {
+                    if !e.file_name().to_string_lossy().ends_with(".log") {
+                        continue;
+                    }
+                    let Ok(txt) = std::fs::read_to_string(e.path()) else { continue };
+                    for l in txt.lines() {
+                        if let Some(r) = l.strip_prefix("stat::number_of_executed_units:") {
+                            lf_execs += r.trim().parse::<u64>().unwrap_or(0);
+                        } else if let Some(r) = l.strip_prefix("stat::new_units_added:") {
+                            lf_new += r.trim().parse::<u64>().unwrap_or(0);
+                        } else if l.starts_with('#') && l.contains(" cov: ") {
+                            let w: Vec<&str> = l.split_whitespace().collect();
+                            for i in 0..w.len().saturating_sub(1) {
+                                if w[i] == "cov:" {
+                                    max_cov = max_cov.max(w[i + 1].parse().unwrap_or(0));
+                                }
+                                if w[i] == "ft:" {
+                                    max_ft = max_ft.max(w[i + 1].parse().unwrap_or(0));
+                                }
+                            }
+                        }
+                    }
+                }
+            }
+            let corpus = std::fs::read_dir(work.join("corpus")).map(|d| d.count()).unwrap_or(0);
+            let path = verif_dir().join("evidence").join(format!("{id}.json"));
+            let mut ev: serde_json::Value =
+                serde_json::from_str(&std::fs::read_to_string(&path).expect("evidence file of the random campaign"))
+                    .expect("parse evidence");
+            ev["coverage"]["coverage_guided_stage"] = serde_json::json!({
+                "engine": "libFuzzer (cargo-fuzz, ASan build); the input bytes are the random stream of the property's own proptest strategy, the oracle is the property's check",
+                "status": args[6],
+                "seconds_per_job": args[4].parse::<u64>().unwrap_or(0),
+                "jobs": args[5].parse::<u64>().unwrap_or(0),
+                "processes_reporting": procs,
+                "executions": lf_execs,
+                "executions_decoded_and_checked": execs,
+                "inputs_rejected_by_generator": rejected,
+                "distinct_nontrivial": fps.len(),
+                "new_corpus_units": lf_new,
+                "corpus_files": corpus,
+                "edge_coverage": max_cov,
+                "features": max_ft,
+                "classes": classes,
+                "known_finding_hits_excluded": known,
+                "samples": samples,
+            });
+            std::fs::write(&path, serde_json::to_string_pretty(&ev).unwrap()).unwrap();
+            println!(
+                "{id} coverage-guided stage: {lf_execs} executions ({execs} checked, {} distinct non-trivial), corpus {corpus}, cov {max_cov}, ft {max_ft}, status {}",
+                fps.len(),
+                args[6]
+            );
+            0
+        }
         Some("replay-inner") => {
             let strict = args.iter().any(|a| a == "--strict");
             replay_file(&PathBuf::from(&args[2]), strict)
